@@ -37,7 +37,7 @@ EXPLANATION = (
     "by the run finder (a loop invariant over the data)."
 )
 # obligations added during the build phase (seeding rounds, twins, mutation analysis)
-ADDED_IN_BUILD = " Also: the run finder's state is the carried variable its branch conditions test (the start marker itself or a separate boolean flag): after a False->True transition it is surely not idle, after recording a run it is reset. PEAK-OF-RUN scan-complete: the loop over the runs is never left by break / return."
+ADDED_IN_BUILD = " Also: the run finder's state is the carried variable its branch conditions test (the start marker itself or a separate boolean flag): after a False->True transition it is surely not idle, after recording a run it is reset. PEAK-OF-RUN scan-complete: the loop over the runs is never left by break / return. A path that an isinstance test of the arbitrary change score sends past evaluate() is a violation (a user-defined subclass overriding _evaluate is bypassed)."
 EXPLANATION = EXPLANATION + ADDED_IN_BUILD
 
 ASSUMPTIONS = [
